@@ -333,6 +333,12 @@ Lemma cipher_key_fields alg (mkey msalt rest : bytes) :
   {| ck_alg := alg; ck_klen := lenZ mkey + 14; ck_rks := aes_key_expand mkey; ck_salt := msalt |}.
 Proof.
   intros Ha Ls. unfold cipher_key. rewrite (icm_not_null alg Ha).
+  assert (HG : is_gcm_alg alg = false).
+  { unfold is_icm_alg in Ha. unfold is_gcm_alg.
+    destruct (alg =? SRTP_AES_ICM_128_c)%Z eqn:E1; [apply Z.eqb_eq in E1; subst; reflexivity|].
+    destruct (alg =? SRTP_AES_ICM_192_c)%Z eqn:E2; [apply Z.eqb_eq in E2; subst; reflexivity|].
+    destruct (alg =? SRTP_AES_ICM_256_c)%Z eqn:E3; [apply Z.eqb_eq in E3; subst; reflexivity|discriminate]. }
+  rewrite HG.
   unfold SRTP_SALT_LEN_c. replace (lenZ mkey + 14 - 14)%Z with (lenZ mkey) by lia.
   replace (zn (lenZ mkey)) with (length mkey) by (unfold zn, lenZ; lia).
   rewrite take_app_len. change (zn 14) with 14%nat. rewrite <- Ls at 1. rewrite slice_app_mid.
